@@ -71,12 +71,26 @@ func (r *raceLog) poll() []raceReport {
 			if !strings.Contains(p, "by goroutine") && !strings.Contains(p, "by main goroutine") {
 				continue
 			}
-			frame := "?"
+			// The access is attributed to the nearest caller that is library code (ch-go) or
+			// harness code: standard-library plumbing, the simulated transport copying the
+			// caller's buffer (a real connection does that copy in the kernel, on behalf of
+			// the same caller) and third-party packages the library calls into (compression
+			// codecs, hashing, telemetry) act on behalf of whoever called them. A stack with no
+			// such caller at all is attributed to its first non-plumbing frame.
+			frame, firstOther := "?", ""
+			top := true
 			for _, m := range frameRe.FindAllStringSubmatch(p, -1) {
 				fn := m[1]
-				// the access is attributed to the first frame that is neither runtime / standard
-				// library plumbing nor the simulated transport copying the caller's buffer (a real
-				// connection does that copy in the kernel, on behalf of the same caller)
+				if top && !strings.HasPrefix(fn, "runtime.") && !strings.HasPrefix(fn, "internal/") {
+					top = false
+					if strings.HasPrefix(fn, "verif/vrt/vsched.") {
+						// the scheduler's own bookkeeping (touched only by the thread holding the
+						// baton; deliberately not synchronised so that it adds no happens-before
+						// edges): not an access of the caller
+						frame = "verif/vrt/vsched(bookkeeping)"
+						break
+					}
+				}
 				skip := false
 				for _, pre := range []string{"runtime.", "internal/", "sync/atomic.", "sync.", "net.", "io.", "bufio.", "bytes.", "encoding/binary.", "verif/simnet.", "verif/vrt/"} {
 					if strings.HasPrefix(fn, pre) {
@@ -86,8 +100,16 @@ func (r *raceLog) poll() []raceReport {
 				if skip {
 					continue
 				}
-				frame = fn
-				break
+				if libFrame(fn) || strings.HasPrefix(fn, "verif/") {
+					frame = fn
+					break
+				}
+				if firstOther == "" {
+					firstOther = fn
+				}
+			}
+			if frame == "?" && firstOther != "" {
+				frame = firstOther
 			}
 			rr.frames[n] = frame
 			n++
@@ -169,13 +191,91 @@ func body12(s scn, otel bool, foreign string, f fault) Body {
 	}
 }
 
+// body12two runs the same scenario on two independent clients (own connection, own peer,
+// same options) from two goroutines: clients that share nothing the caller can see must
+// share nothing at all (package-level caches, pooled encoders, lazily built tables).
+func body12two(s scn, comp ch.Compression) Body {
+	return func() Outcome {
+		opt := s.opt
+		opt.Compression = comp
+		name := fmt.Sprintf("C12/two-clients/%s", s.name)
+		c1, err := Connect(opt, baseHello)
+		if err != nil {
+			return Outcome{Key: name + "/handshake-failed", Detail: err.Error()}
+		}
+		defer vsched.Quiet(func() { _ = c1.C.Close() })
+		c2, err := Connect(opt, baseHello)
+		if err != nil {
+			return Outcome{Key: name + "/handshake-failed", Detail: err.Error()}
+		}
+		defer vsched.Quiet(func() { _ = c2.C.Close() })
+		q1, st1 := s.mk(c1, &failAt{})
+		q2, st2 := s.mk(c2, &failAt{})
+		c1.RunPeer("peer", c1.HsLen, st1, nil)
+		c2.RunPeer("peer2", c2.HsLen, st2, nil)
+		fin := make(chan error, 1)
+		vsched.Go("second", func() { fin <- c2.Cl.Do(context.Background(), q2) })
+		e1 := c1.Cl.Do(context.Background(), q1)
+		e2 := vsched.Recv("main", fin)
+		vsched.Quiet(func() { _ = c1.Cl.Close(); _ = c2.Cl.Close() })
+		if e1 != nil || e2 != nil {
+			return Outcome{Obs: errClass(e1) + "+" + errClass(e2), Key: name + "/fault-free-run-fails", Detail: fmt.Sprintf("two independent clients running the same fault-free query: %v / %v", e1, e2)}
+		}
+		return Outcome{Obs: "nil+nil"}
+	}
+}
+
+// probeTable is written by two harness threads without synchronisation: the detector's
+// self-test (a -race run that cannot see this race cannot see the library's either).
+var probeTable [256]int
+
+//go:noinline
+func probeWrite(v int) {
+	for i := range probeTable {
+		probeTable[i] = v + i
+	}
+}
+
+// raceProbeBody has the shape of the two-clients scenario: two threads, each starting a
+// worker goroutine of its own that writes the shared table, separated by scheduling points.
+func raceProbeBody() Outcome {
+	fin := make(chan struct{}, 2)
+	vsched.Go("probe-second", func() {
+		vsched.Point("probe-second-start")
+		inner := make(chan struct{}, 1)
+		vsched.Go("probe-second-worker", func() { probeWrite(1); inner <- struct{}{} })
+		vsched.Recv("probe-second", inner)
+		fin <- struct{}{}
+	})
+	vsched.Point("probe-main-start")
+	inner := make(chan struct{}, 1)
+	vsched.Go("probe-main-worker", func() { probeWrite(2); inner <- struct{}{} })
+	vsched.Recv("main", inner)
+	vsched.Recv("main", fin)
+	return Outcome{Obs: "probe"}
+}
+
 // C12 — no data race inside the library: the schedules enumerated by the explorer are run
 // under the Go race detector (the scheduler's barrier adds no happens-before edges).
 func C12(c *vk.Ctx) {
-	c.Rule("query scenarios of C04 (insert with progress, streamed insert, LZ4 insert, select, select with logs/profile events), each with OpenTelemetry instrumentation on and off, fault-free and with a server exception at two gates, plus Close / IsClosed / cancel from a foreign goroutine, plus pool scenarios of C11 (two holders incl. a broken connection and a double release, the health checker destroying expired connections); every schedule up to the deviation bound is executed in a -race build; a report counts when both conflicting accesses are in ch-go packages. distinct_nontrivial = executions.")
+	c.Rule("query scenarios of C04 (insert with progress, streamed insert, LZ4 insert, select, select with logs/profile events), each with OpenTelemetry instrumentation on and off, fault-free and with a server exception at two gates, plus Close / IsClosed / cancel from a foreign goroutine, plus two independent clients running the same insert / select side by side under each compression method (Disabled, None, LZ4, LZ4HC, ZSTD; quick tier: default schedule only), plus pool scenarios of C11 (two holders incl. a broken connection and a double release, the health checker destroying expired connections); every schedule up to the deviation bound is executed in a -race build; a report counts when both conflicting accesses are in ch-go packages. distinct_nontrivial = executions.")
 	rl := newRaceLog()
 	if rl == nil && c.Flavour == "sched-race" {
 		harness("C12 needs GORACE=log_path=...")
+	}
+	// detector self-test: a deliberate race between two harness threads must be reported
+	if rl != nil && (c.Only == "" || c.Only == "self-test@") {
+		RunOnce(nil, false, raceProbeBody)
+		seen := false
+		for _, r := range rl.poll() {
+			if strings.Contains(r.text, "probeWrite") {
+				seen = true
+			}
+		}
+		if !seen {
+			harness("race detector self-test: the deliberate race between two harness threads (probeWrite) was not reported; races in the library would go unseen too")
+		}
+		c.Note("race detector self-test passed: a deliberate unsynchronised write/write between two scheduled threads was reported")
 	}
 	quick := c.Quick()
 	bound := 1
@@ -187,6 +287,7 @@ func C12(c *vk.Ctx) {
 		id   string
 		body Body
 		kb   string
+		low  bool // quick tier: the default schedule only
 	}
 	var jobs []job
 	for _, s := range scs {
@@ -198,19 +299,36 @@ func C12(c *vk.Ctx) {
 			if quick && !otel && !core {
 				continue
 			}
-			jobs = append(jobs, job{fmt.Sprintf("%s/otel=%v/plain", s.name, otel), body12(s, otel, "", fault{kind: "none"}), "C12/" + s.name})
+			jobs = append(jobs, job{fmt.Sprintf("%s/otel=%v/plain", s.name, otel), body12(s, otel, "", fault{kind: "none"}), "C12/" + s.name, false})
 			for _, g := range []int{2, 3} {
 				if quick && (!otel || g == 3 || !(core || s.name == "insert")) {
 					continue
 				}
-				jobs = append(jobs, job{fmt.Sprintf("%s/otel=%v/exc@%d", s.name, otel, g), body12(s, otel, "", fault{kind: "exc", k: g}), "C12/" + s.name})
+				jobs = append(jobs, job{fmt.Sprintf("%s/otel=%v/exc@%d", s.name, otel, g), body12(s, otel, "", fault{kind: "exc", k: g}), "C12/" + s.name, false})
 			}
 		}
 		for _, foreign := range []string{"close", "cancel", "isclosed"} {
 			if quick && s.name != "select" {
 				continue
 			}
-			jobs = append(jobs, job{fmt.Sprintf("%s/otel=true/foreign-%s", s.name, foreign), body12(s, true, foreign, fault{kind: "none"}), "C12/" + s.name})
+			jobs = append(jobs, job{fmt.Sprintf("%s/otel=true/foreign-%s", s.name, foreign), body12(s, true, foreign, fault{kind: "none"}), "C12/" + s.name, false})
+		}
+	}
+	// two independent clients side by side, per compression method
+	for _, s := range scs {
+		if s.name != "insert" && s.name != "select" {
+			continue
+		}
+		for _, cm := range []struct {
+			n string
+			c ch.Compression
+		}{{"disabled", ch.CompressionDisabled}, {"none", ch.CompressionNone}, {"lz4", ch.CompressionLZ4}, {"lz4hc", ch.CompressionLZ4HC}, {"zstd", ch.CompressionZSTD}} {
+			if quick && s.name == "select" && cm.n != "lz4" {
+				continue
+			}
+			// (a race needs both accesses in one execution, not a particular interleaving: the
+			// quick tier runs the default schedule, the thorough tier the full bound)
+			jobs = append(jobs, job{fmt.Sprintf("two-clients/%s/%s", s.name, cm.n), body12two(s, cm.c), "C12/two-clients", true})
 		}
 	}
 	// pool users with the health checker (the C11 harness under the race detector)
@@ -223,7 +341,7 @@ func C12(c *vk.Ctx) {
 		poolScns = append(poolScns, poolScn{maxConns: 2, progs: []int{hOK, hTransport}}, poolScn{maxConns: 1, progs: []int{hTransport, hPoolDo}, closer: true})
 	}
 	for _, ps := range poolScns {
-		jobs = append(jobs, job{"pool/" + ps.id(), bodyPool(ps), "C12/pool"})
+		jobs = append(jobs, job{"pool/" + ps.id(), bodyPool(ps), "C12/pool", false})
 	}
 	minBound := 99
 	for _, j := range jobs {
@@ -242,6 +360,8 @@ func C12(c *vk.Ctx) {
 			for _, r := range rl.poll() {
 				a, b := r.frames[0], r.frames[1]
 				switch {
+				case strings.HasPrefix(a, "verif/vrt/vsched(") || strings.HasPrefix(b, "verif/vrt/vsched("):
+					// scheduler bookkeeping, see poll
 				case libFrame(a) && libFrame(b):
 					fa, fb := short(a), short(b)
 					if fb < fa {
@@ -262,13 +382,27 @@ func C12(c *vk.Ctx) {
 			return
 		}
 		t0 := c.Elapsed()
+		if j.low && quick {
+			// default schedule only (one shard runs it)
+			if c.Shard == 0 {
+				x := RunOnce(nil, false, j.body)
+				e.AfterExec(&x)
+				if key, detail := e.verdict(&x); key != "" {
+					c.Violation(key, j.id+"@", detail, nil)
+				}
+				c.Eval("two-clients", 1)
+				c.AddStates(1, int64(x.Steps), 1)
+				c.DistinctN(1)
+			}
+			continue
+		}
 		st := e.Run(bound)
 		if os.Getenv("VERIF_JOBLOG") != "" {
 			fmt.Fprintf(os.Stderr, "job %s: %d executions, %d steps, %.1fs\n", j.id, st.Executions, st.Steps, (c.Elapsed() - t0).Seconds())
 		}
 		Account(c, strings.SplitN(j.id, "/", 2)[0], st)
 		c.DistinctN(st.Executions)
-		if st.BoundDone < minBound {
+		if st.BoundDone < minBound && !(j.low && quick) {
 			minBound = st.BoundDone
 		}
 		if st.FirstSample != nil && strings.HasPrefix(j.id, "insert/otel=true/plain") {
